@@ -296,6 +296,64 @@ def padSubs : Dims → Subs → Subs
 def outcomePadded (cfg : Cfg) (c : Case) : Option (List (List Pos)) :=
   outcome cfg ⟨c.dims, padSubs c.dims c.subs, c.loop⟩
 
+/-! ## References through components: `d.v[…]`, `c[…].v[…]`, `g.f[…].v[…]`
+
+`tree.indices` holds one subscript list per part of the name and `_modelica_shape` one dimension list per
+part; `get_indexed_symbol` walks them level by level: more subscripts than dimensions at a level is
+"Too many indices" (a subscript on a scalar level "is not an array"), fewer are padded with `:`; the
+(subscript, dimension) pairs of all levels, in order, index the flattened symbol.
+One deviation, recorded as finding C23-F5 with proposed fix C23-4: the tree does not apply the "is not an
+array" test to a subscript that is the bare loop variable; the model does (it follows the fix). -/
+
+/-- a subscript of either kind -/
+inductive ASub where
+  | fixed (f : FSub)
+  | loop (mul off : Int)
+  deriving Repr, DecidableEq
+
+/-- one part of the name: its declared dimensions and the subscripts written on it -/
+structure Level where
+  dims : List Nat
+  subs : List ASub
+  deriving Repr, DecidableEq
+
+/-- the level's (subscript, dimension) pairs; `none`: more subscripts than dimensions -/
+def padLevel (l : Level) : Option (List (ASub × Nat)) :=
+  if l.subs.length > l.dims.length then none
+  else some ((l.subs ++ List.replicate (l.dims.length - l.subs.length) (ASub.fixed FSub.all)).zip l.dims)
+
+def padLevels : List Level → Option (List (ASub × Nat))
+  | [] => some []
+  | l :: ls =>
+    match padLevel l, padLevels ls with
+    | some a, some b => some (a ++ b)
+    | _, _ => none
+
+/-- The flattened symbol's dimensions and subscripts; `none`: more than two dimensions (not supported by the
+    backend) or two loop-dependent subscripts (outside this model, never generated). -/
+def pairsToCase (loop : Option LoopRange) : List (ASub × Nat) → Option Case
+  | [(.fixed a, n)] => some ⟨.d1 n, .f1 a, loop⟩
+  | [(.loop mul off, n)] => some ⟨.d1 n, .l1 mul off, loop⟩
+  | [(.fixed a, n), (.fixed b, m)] => some ⟨.d2 n m, .ff a b, loop⟩
+  | [(.loop mul off, n), (.fixed b, m)] => some ⟨.d2 n m, .lf mul off b, loop⟩
+  | [(.fixed a, n), (.loop mul off, m)] => some ⟨.d2 n m, .fl a mul off, loop⟩
+  | _ => none
+
+/-- Generation of a one-equation model holding a reference through components (at least one dimension in
+    total). -/
+def outcomeNested (cfg : Cfg) (levels : List Level) (loop : Option LoopRange) : Option (List (List Pos)) :=
+  match padLevels levels with
+  | none => none
+  | some [] =>
+    -- a scalar without any subscript: the variable itself, once per iteration inside a loop
+    match loop with
+    | none => some [[(0, 0)]]
+    | some r => (loopValues cfg r).map (fun vals => norm (vals.map (fun _ => [(0, 0)])))
+  | some pairs =>
+    match pairsToCase loop pairs with
+    | none => none
+    | some c => outcome cfg c
+
 /-! ## Modelica's meaning of a subscript (the specification side; not used by `outcome`) -/
 
 /-- `a, a+s, a+2s, …` up to `b` (`s > 0`); empty when `b < a`. -/
